@@ -180,8 +180,8 @@ def finish(ctx):
         reach.stop()
         reach.export(ctx)
     xr = _state['xr']
-    ctx.info['nonmonotone_windows'] = [[xr.symbols[z]] + [list(w) for w in xr.table(z).windows]
-                                       for z in sorted(xr._tables) if xr.table(z).windows]
+    ctx.info['nonmonotone_windows_keV'] = {xr.symbols[z]: [list(w) for w in xr.table(z).windows]
+                                           for z in sorted(xr._tables) if xr.table(z).windows}
     if ctx.replay:
         return
     why = 'the workload must be observed entering the anchored mechanism'
@@ -543,6 +543,9 @@ def check_ions(ctx, case):
         es = [rng.choice(tab.E) for _ in range(n // 3)] + \
              [10 ** rng.uniform(math.log10(tab.emin), math.log10(tab.emax)) for _ in range(n - n // 3)] + \
              [tab.emin, tab.emax, tab.emin * 0.99, tab.emax * 1.01]
+        edges = tab.edges()
+        for j in rng.sample(edges, min(3, len(edges))):    # absorption-edge neighbours
+            es += [tab.E[j], (tab.E[j] + tab.E[j + 1]) / 2, tab.E[j + 1], math.nextafter(tab.E[j + 1], 99)]
         atom = _atom(key)
         status = _sweep(ctx, bud, Z, atom, es, 'ion/isotope', scalar=(key[2] != 0 and rng.random() < 0.3),
                         wavelength=rng.random() < 0.3)
